@@ -6,10 +6,80 @@ package props
 // (i.e. what the default configuration produces).
 
 import (
+	"fmt"
+
 	lua "github.com/yuin/gopher-lua"
 
 	"verif/internal/harness"
+	. "verif/internal/luaref"
 )
+
+// genGrowCross: recursion that re-enters Lua through pcall, a host call-back, a __index metamethod
+// or an iterator, always leaving trailing parameters out, with 0-7 extra locals per frame and
+// depths chosen so that the registers in use cross the initial capacity of the registry at many
+// alignments.
+func genGrowCross(thorough bool) Gen {
+	return func(yield func(*Prog)) {
+		depths := []int{3, 6, 9, 12, 15, 18, 21, 24, 27, 30}
+		if thorough {
+			depths = nil
+			for d := 1; d <= 40; d++ {
+				depths = append(depths, d)
+			}
+		}
+		for _, via := range []string{"pcall", "hcall", "index", "iter", "direct"} {
+			for _, nloc := range []int{0, 3, 7} {
+				for _, d := range depths {
+					via, nloc, d := via, nloc, d
+					yield(&Prog{Family: "F-growcross", Shape: fmt.Sprintf("%s/locals=%d/depth=%d", via, nloc, d), Mk: func() *Block {
+						var locs []string
+						var vals []Expr
+						for i := 0; i < nloc; i++ {
+							locs = append(locs, fmt.Sprintf("l%d", i))
+							vals = append(vals, Num(float64(i+1)))
+						}
+						body := []Stat{}
+						if nloc > 0 {
+							body = append(body, &LocalStat{Names: locs, Exprs: vals})
+						}
+						// walk(depth, label, acc, sep): acc and sep are always left out by the callers
+						body = append(body, If(Bin("~=", Name("acc"), Nil()), Emit(Str("acc-not-nil"), Name("acc"))), If(Bin("~=", Name("sep"), Nil()), Emit(Str("sep-not-nil"), Name("sep"))),
+							If(Bin("==", Name("depth"), Num(0)), Return(Name("label"))))
+						var rec Stat
+						switch via {
+						case "pcall":
+							rec = Local(names("ok", "r"), CallN("pcall", Name("walk"), Bin("-", Name("depth"), Num(1)), Name("label")))
+						case "hcall":
+							rec = Local1("r", CallN("hcall", Name("walk"), Bin("-", Name("depth"), Num(1)), Name("label")))
+						case "index":
+							rec = Local1("r", Index(Name("proxy"), Bin("-", Name("depth"), Num(1))))
+						case "iter":
+							rec = Local1("r", Nil())
+						case "direct":
+							rec = Local1("r", CallN("walk", Bin("-", Name("depth"), Num(1)), Name("label")))
+						}
+						body = append(body, rec)
+						if via == "iter" {
+							body = append(body, GenFor(names("v"), []Expr{Name("walkiter"), Bin("-", Name("depth"), Num(1))}, Assign1(Name("r"), Name("v")), Break()))
+						}
+						sum := Expr(Num(0))
+						if nloc > 0 {
+							sum = Bin("+", Name("l0"), Name(fmt.Sprintf("l%d", nloc-1)))
+						}
+						body = append(body, Return(Bin("..", Bin("..", Name("r"), Str(".")), sum)))
+						st := []Stat{Local(names("walk", "proxy", "walkiter"))}
+						st = append(st, Assign1(Name("walk"), Func(names("depth", "label", "acc", "sep"), false, body...)))
+						st = append(st, Assign1(Name("proxy"), CallN("setmetatable", TableE(), TableE(NamedField("__index", Func(names("t", "k", "missing"), false, If(Bin("~=", Name("missing"), Nil()), Emit(Str("missing-not-nil"))), Return(CallN("walk", Name("k"), Str("w")))))))))
+						// iterator: first call returns walk(state), second ends the loop; called with (state, control) only
+						st = append(st, Assign1(Name("walkiter"), Func(names("s", "c", "extra"), false, If(Bin("~=", Name("extra"), Nil()), Emit(Str("extra-not-nil"))), If(Bin("~=", Name("c"), Nil()), Return(Nil())), Return(CallN("walk", Name("s"), Str("w"))))))
+						st = append(st, Emit(Str("result"), CallN("walk", Num(float64(d)), Str("w"))))
+						return Blk(st...)
+					}})
+				}
+			}
+		}
+	}
+}
 
 func c12ProgramFamilies(r *harness.Run) {
 	th := r.Thorough()
@@ -17,8 +87,12 @@ func c12ProgramFamilies(r *harness.Run) {
 		name string
 		opts lua.Options
 	}{
-		{"grow1", lua.Options{RegistrySize: 64, RegistryMaxSize: 1 << 20, RegistryGrowStep: 1}},
-		{"grow3+minstack", lua.Options{RegistrySize: 96, RegistryMaxSize: 1 << 20, RegistryGrowStep: 3, MinimizeStackMemory: true, CallStackSize: 64}},
+		// a registry that starts at one slot: every frame entry that needs a register reallocates
+		{"grow1-from1", lua.Options{RegistrySize: 1, RegistryMaxSize: 1 << 20, RegistryGrowStep: 1}},
+		{"grow2-from8+minstack", lua.Options{RegistrySize: 8, RegistryMaxSize: 1 << 20, RegistryGrowStep: 2, MinimizeStackMemory: true, CallStackSize: 64}},
+		{"grow7-from30", lua.Options{RegistrySize: 30, RegistryMaxSize: 1 << 20, RegistryGrowStep: 7}},
+		{"grow1-from128", lua.Options{RegistrySize: 128, RegistryMaxSize: 1 << 20, RegistryGrowStep: 1}},
+		{"grow32-from160", lua.Options{RegistrySize: 160, RegistryMaxSize: 1 << 20, RegistryGrowStep: 32}},
 	}
 	for _, cfg := range configs {
 		if r.Expired() {
@@ -26,7 +100,7 @@ func c12ProgramFamilies(r *harness.Run) {
 			return
 		}
 		pr := &progRunner{r: r, prop: "C12", opts: cfg.opts, sigPrefix: "p4/" + cfg.name + "/"}
-		gens := map[string]Gen{"F-call": genCall(th), "F-select": genSelectUnpack(th), "F-closure": genClosure(th), "F-genfor": genGenFor(th), "F-errval": genErrVal(th), "F-callmeta": genMetaCall(th), "F-index": genMetaIndex(th)}
-		pr.runGens(gens, []string{"F-select", "F-closure", "F-genfor", "F-errval", "F-callmeta", "F-index", "F-call"})
+		gens := map[string]Gen{"F-growcross": genGrowCross(th), "F-call": genCall(th), "F-select": genSelectUnpack(th), "F-closure": genClosure(th), "F-genfor": genGenFor(th), "F-errval": genErrVal(th), "F-callmeta": genMetaCall(th), "F-index": genMetaIndex(th)}
+		pr.runGens(gens, []string{"F-growcross", "F-select", "F-closure", "F-genfor", "F-errval", "F-callmeta", "F-index", "F-call"})
 	}
 }
